@@ -104,6 +104,15 @@ def worker(job):
     for toks in job["seqs"]:
         variants = []
         seen = set()
+        if comments:
+            # the parsers are reused for every variant; in between they also see an input whose layout cannot be parsed (unterminated comment)
+            for p_ in (lr, glr):
+                if p_ is not None:
+                    try:
+                        with real.guard(5), real.quiet():
+                            p_.parse("  ".join(toks) + "   /* never closed")
+                    except Exception:  # noqa: BLE001
+                        pass
         for k in range(job["nvar"] * 3):
             if k == 0:
                 fl = [""] * (len(toks) + 1)          # no layout at all
